@@ -24,7 +24,12 @@ namespace
             // tm type inst fn args…
             H::reg("tm", [](H::Reader &r, H::Out &o) {
                 long ty = r.i(); long inst = r.i(); std::string fn = r.tok();
-                if (ty == 0) tmOp(QuadInvTimeMap(), fn, r, o);
+                // inst 7: one persistent object answers all requests (a time map must not carry state from call to call)
+                static QuadInvTimeMap persistentQuadInv;
+                static IdentityTimeMap persistentIdentity;
+                if (ty == 0 && inst == 7) tmOp(persistentQuadInv, fn, r, o);
+                else if (ty == 1 && inst == 7) tmOp(persistentIdentity, fn, r, o);
+                else if (ty == 0) tmOp(QuadInvTimeMap(), fn, r, o);
                 else if (ty == 1) tmOp(IdentityTimeMap(), fn, r, o);
                 else tmOp(inst == 1 ? HV::AffineTimeMap(0.5, 0.25) : HV::AffineTimeMap(), fn, r, o);
             });
